@@ -22,7 +22,28 @@ var tamperLits = [][2]string{
 	{"\"x\"", "s"}, {"\"5\"", "s"}, {"\" 5\"", "s"}, {"\"\"", "s"}, {"\"a\"", "s"}, {"\"true\"", "s"}, {"\"1.5\"", "s"},
 }
 
+// named types with identityrefs / unions: a value qualified with the leaf's own module name is accepted in
+// its simple form when — and only when — that simple form is an identity of an identityref member
+var tamperNamed = map[string]string{
+	"idref":       "type identityref { base idm:base; }",
+	"union-id-u16": "type union { type identityref { base idm:base; } type uint16; }",
+	"union-u8-str": "type union { type uint8; type string { length \"1..2\"; } }",
+	"union-nested": "type union { type boolean; type union { type identityref { base idm:base; } type int8; } }",
+}
+var tamperNamedLits = []string{"m:local", "m:80", "m:idm:one", "idm:one", "idm:two", "idm:base", "local", "80", "m:ab", "ab", "zz:one", "m:", "m:m:local", "m:true", "true", "m:-5", "-5", "x:local"}
+
 func genYEncFuzz(r *Rng, tier string, n int, emit func(Case)) {
+	for _, t := range []string{"idref", "union-id-u16", "union-u8-str", "union-nested"} {
+		for _, l := range tamperNamedLits {
+			for _, enc := range []string{"rfc7951", "json", "xml"} {
+				if n <= 0 {
+					return
+				}
+				emit(Case{"k": "yencfuzz", "mode": "tamper2", "type": t, "val": l, "enc": enc})
+				n--
+			}
+		}
+	}
 	// the whole tamper table first (small, exhaustive), then mutated encodings
 	for _, t := range tamperTypes {
 		for _, l := range tamperLits {
@@ -121,6 +142,37 @@ func runYEncFuzz(c Case) (out string) {
 			out = fmt.Sprintf("PANIC %v", r)
 		}
 	}()
+	if cstr(c, "mode") == "tamper2" {
+		schemaText := "module m { namespace \"urn:m\"; prefix m; import idm { prefix idm; }\n  identity local { base idm:base; }\n  leaf x { " + tamperNamed[cstr(c, "type")] + " }\n}\n"
+		ms, err := compileTexts(nil, idmModule, schemaText)
+		if err != nil {
+			return "compile-err " + err.Error()
+		}
+		v := cstr(c, "val")
+		var doc string
+		switch cstr(c, "enc") {
+		case "rfc7951":
+			doc = "{\"m:x\": " + fmt.Sprintf("%q", v) + "}"
+		case "json":
+			doc = "{\"x\": " + fmt.Sprintf("%q", v) + "}"
+		default:
+			doc = "<data><x xmlns=\"urn:m\">" + v + "</x></data>"
+		}
+		dn, derr := encoding.NewUnmarshaller(encTypeOf(cstr(c, "enc"))).SetValidation(schema.DontValidate).Unmarshal(ms, []byte(doc))
+		if derr != nil {
+			return "err"
+		}
+		for _, k := range dn.YangDataChildren() {
+			if k.YangDataName() == "x" {
+				var vs []string
+				for _, v := range k.YangDataValues() {
+					vs = append(vs, hexTok(v))
+				}
+				return "ok:" + strings.Join(vs, ",")
+			}
+		}
+		return "ok:absent"
+	}
 	if cstr(c, "mode") == "tamper" {
 		ms, err := compileTexts(nil, tamperSchema(cstr(c, "type")))
 		if err != nil {
